@@ -21,7 +21,7 @@ ROOT = os.path.dirname(os.path.dirname(os.path.dirname(os.path.abspath(__file__)
 
 def sizes(ctx):
     if ctx.quick:
-        return dict(core=350, excon=150, nola=40, wide=30, retry=120, flags=100, fusion=100)
+        return dict(core=350, excon=150, nola=40, wide=30, retry=120, flags=60, fusion=100)
     return dict(core=15000, excon=6000, nola=800, wide=800, retry=3000, flags=3000, fusion=3000)
 
 def limited(rng, base):
@@ -50,8 +50,8 @@ def gen_cases(ctx):
     for i in range(n['wide']):
         add('wide', rc['wide'][i % len(rc['wide'])], False, 0.75, False)
     for i in range(n.get('flags', 0)):
-        c = CG.gen_case(rng, coding_p=0.85, nvar=rng.choice([2, 3, 4, 5, 6]))
         sect, w2f = rng.choice([(True, False), (False, True), (True, True)])
+        c = CG.gen_twosec_case(rng) if (sect and rng.random() < 0.4) else CG.gen_case(rng, coding_p=0.85, nvar=rng.choice([2, 3, 4, 5, 6]))
         c['runs'] = [limited(rng, CG.gen_run(rng, rule='trypsin', exc_on=False, sect=sect, w2f=w2f))]
         c['stream'] = 'flags'
         cases.append(c)
@@ -104,8 +104,6 @@ def judge(evs, violations, stats):
         if ev.exc:
             if st == 'retry' and ev.run.get('force_timeouts') is not None and ev.exc['__exc__'] == 'ValueError':
                 pass                                 # judged against the model of caller_reducer in judge_retry
-            elif CK.is_end_inclusion_crash(ev):
-                stats['end_inclusion_crash'] += 1    # nothing is emitted: C01 owns the finding
             elif CK.is_fusion_crash(ev):
                 stats['fusion_crash'] += 1           # nothing is emitted: C01 owns the finding
             else:
